@@ -149,6 +149,9 @@ func TestParsedPrograms(t *testing.T) {
 		if m := checkTree(r.Root); m != "" {
 			harness.Fail(rt, "parsed-tree", lay.Src, map[string]string{"version": v.String()}, "[%s] %s\nsource: %q", v, m, lay.Src)
 		}
+		if m := checkReuse(r.Root, rapid.IntRange(0, 1<<20).Draw(rt, "subtree"), rapid.Bool().Draw(rt, "reuse-tokens"), rapid.Bool().Draw(rt, "reuse-positions")); m != "" {
+			harness.Fail(rt, "dumper-reuse", lay.Src, map[string]string{"version": v.String(), "reuse": "1"}, "[%s] %s\nsource: %q", v, m, lay.Src)
+		}
 		kinds := map[string]bool{}
 		for _, n := range astx.Nodes(r.Root) {
 			kinds[astx.KindName(n)] = true
@@ -208,6 +211,14 @@ func TestReplay(t *testing.T) {
 		if m := checkTree(r.Root); m != "" {
 			harness.Failf(t, vi.Check, src, vi.Meta, "[%s] %s", v, m)
 			return
+		}
+		if vi.Meta["reuse"] != "" {
+			for pick := 0; pick < 8; pick++ {
+				if m := checkReuse(r.Root, pick*7, pick&1 == 0, pick&2 == 0); m != "" {
+					harness.Failf(t, vi.Check, src, vi.Meta, "[%s] %s", v, m)
+					return
+				}
+			}
 		}
 	}
 }
